@@ -9,7 +9,7 @@ Ltac brk :=
       | bool => destruct x eqn:?
       | option _ => destruct x eqn:?
       | list _ => destruct x
-      | kind => destruct x
+      | kind => is_var x; destruct x
       | prod _ _ => destruct x
       end
   end.
